@@ -5,7 +5,7 @@ import ast
 from typing import Dict, List, Optional, Set, Tuple
 
 from ..cfg import CFG, Node, explore, refine, walk_node
-from ..model import AnalysisError, FuncInfo, Repo, dotted, method_call, src, walk_no_nested
+from ..model import expand_src, AnalysisError, FuncInfo, Repo, dotted, method_call, src, walk_no_nested
 from ..report import Ob, bad, note, ok, skip
 from . import rule
 from .struct import STATE_MODULES, state_functions
@@ -218,7 +218,8 @@ def _earlier_handles_repointed(init: FuncInfo) -> bool:
         for a in ast.walk(l):
             if isinstance(a, ast.Assign) and any(isinstance(t, ast.Attribute) and t.attr == "uid" and src(t.value) != "self" for t in a.targets) and src(a.value) == "self.uid":
                 guards = [i for i in ast.walk(l) if isinstance(i, ast.If) and any(y is a for b in i.body for y in ast.walk(b))]
-                if any(any(isinstance(c, ast.Compare) and isinstance(c.ops[0], (ast.Is, ast.IsNot)) for c in ast.walk(g.test)) and "_containers" in src(g.test) for g in guards):
+                from ..model import expand_ast
+                if any(any(isinstance(c, ast.Compare) and isinstance(c.ops[0], (ast.Is, ast.IsNot)) for c in ast.walk(g.test)) and "_containers" in src(expand_ast(init.node, g.test)) for g in guards):
                     return True
     return False
 
@@ -266,8 +267,9 @@ def book_merge(repo: Repo) -> List[Ob]:
                     if isinstance(st, ast.Expr) and method_call(st.value) and method_call(st.value)[1] in ("append", "add") and st.value.args \
                             and isinstance(method_call(st.value)[0], ast.Name) and expand_src(fi.node, st.value.args[0]) == arg_x:
                         accs.add(method_call(st.value)[0].id)
+                from ..model import expand_ast
                 for t in [x for x in ast.walk(loop) if isinstance(x, ast.If) and any(y is n for b in x.body for y in ast.walk(b))]:
-                    for g in ast.walk(t.test):
+                    for g in ast.walk(expand_ast(fi.node, t.test)):
                         if isinstance(g, (ast.GeneratorExp, ast.ListComp)) and isinstance(g.generators[0].iter, ast.Name) and g.generators[0].iter.id in accs \
                                 and isinstance(g.elt, ast.Compare) and isinstance(g.elt.ops[0], (ast.Is, ast.IsNot)):
                             once = True
@@ -297,7 +299,7 @@ def book_merge(repo: Repo) -> List[Ob]:
         raise AnalysisError("BOOK-merge: no append_states call found")
     # moved product spaces: indices are refreshed after the merge and the spaces point at their new container
     app = repo.func("CompositeEnvelopeContainer.append_states")
-    repoints = any(isinstance(l, ast.For) and "other" in src(l.iter) and any(isinstance(a, ast.Assign) and any(isinstance(t, ast.Attribute) and t.attr == "container" for t in a.targets) and src(a.value) == "self" for a in ast.walk(l))
+    repoints = any(isinstance(l, ast.For) and "other" in expand_src(app.node, l.iter) and any(isinstance(a, ast.Assign) and any(isinstance(t, ast.Attribute) and t.attr == "container" for t in a.targets) and src(a.value) == "self" for a in ast.walk(l))
                    for l in walk_no_nested(app.node))
     (obs.append(ok("BOOK-merge", app, "moved-spaces-repointed", P, app.node, "appended product spaces are pointed at the receiving container")) if repoints else
      obs.append(bad("BOOK-merge", app, "moved-spaces-repointed", P, app.node,
@@ -369,7 +371,7 @@ def book_own(repo: Repo) -> List[Ob]:
                     if fi.qualname == "CompositeEnvelope.__init__" and isinstance(n, ast.For):
                         stores = [y for y in ast.walk(n) if isinstance(y, ast.Attribute) and isinstance(y.ctx, ast.Store)]
                         def _guarded(y):
-                            return any(isinstance(i, ast.If) and any(z is y for b in i.body for z in ast.walk(b)) and "_containers" in src(i.test)
+                            return any(isinstance(i, ast.If) and any(z is y for b in i.body for z in ast.walk(b)) and "_containers" in expand_src(fi.node, i.test)
                                        and any(isinstance(c, ast.Compare) and isinstance(c.ops[0], (ast.Is, ast.IsNot)) for c in ast.walk(i.test)) for i in ast.walk(n))
                         if stores and all(_guarded(y) for y in stores):
                             obs.append(ok("BOOK-own", fi, "registry-iteration", P, n, "the constructor walks the handle registry but writes only to handles whose container is (by identity) one of the merged ones"))
